@@ -354,21 +354,21 @@ type opts struct {
 }
 
 type scenario struct {
-	Opts      opts           `json:"opts"`
-	Mode      string         `json:"mode"`
-	CA        secretState    `json:"ca"`
-	Server    secretState    `json:"server"`
-	Client    secretState    `json:"client"`
-	ESSSecret secretState    `json:"essSecret"`
+	Opts      opts              `json:"opts"`
+	Mode      string            `json:"mode"`
+	CA        secretState       `json:"ca"`
+	Server    secretState       `json:"server"`
+	Client    secretState       `json:"client"`
+	ESSSecret secretState       `json:"essSecret"`
 	CRDs      map[string]string `json:"crds,omitempty"` // name -> "current" | "stale"
-	OldStored []string       `json:"oldStored,omitempty"`
-	Webhooks  string         `json:"webhooks"`    // absent | current | stale
-	Lock      string         `json:"lock"`        // absent | empty | populated
-	Store     string         `json:"storeConfig"` // absent | default | modified
-	DRC       string         `json:"drc"`         // absent | default | modified
-	Existing  []existingPkg  `json:"existing,omitempty"`
-	Requested []requestedPkg `json:"requested,omitempty"`
-	Runs      int            `json:"runs"`
+	OldStored []string          `json:"oldStored,omitempty"`
+	Webhooks  string            `json:"webhooks"`    // absent | current | stale
+	Lock      string            `json:"lock"`        // absent | empty | populated
+	Store     string            `json:"storeConfig"` // absent | default | modified
+	DRC       string            `json:"drc"`         // absent | default | modified
+	Existing  []existingPkg     `json:"existing,omitempty"`
+	Requested []requestedPkg    `json:"requested,omitempty"`
+	Runs      int               `json:"runs"`
 }
 
 var (
@@ -396,6 +396,26 @@ func genSecret(t *rapid.T, label string, all []string) secretState {
 		}
 		return secretState{Present: true, Keys: keys, Extra: rapid.Bool().Draw(t, label+"-extra")}
 	}
+}
+
+var partialBundles = [][]string{{"tls.crt"}, {"tls.key"}, {"ca.crt"}, {"tls.crt"}, {"tls.key"}, {"ca.crt"}, {"tls.crt", "tls.key"}, {"tls.crt", "ca.crt"}, {"tls.key", "ca.crt"}}
+
+// genPartialBundle: a secret that holds a proper, non-empty part of the bundle.
+func genPartialBundle(t *rapid.T, label string) secretState {
+	keys := rapid.SampledFrom(partialBundles).Draw(t, label+"-bundle")
+	return secretState{Present: true, Keys: append([]string(nil), keys...), Extra: rapid.IntRange(0, 3).Draw(t, label+"-extra") == 0}
+}
+
+func bundleName(keys []string) string {
+	short := map[string]string{"tls.crt": "crt", "tls.key": "key", "ca.crt": "ca"}
+	var p []string
+	for _, k := range keys {
+		p = append(p, short[k])
+	}
+	if len(p) == 1 {
+		return p[0] + "-only"
+	}
+	return strings.Join(p, "+")
 }
 
 var (
@@ -436,6 +456,19 @@ func genScenario(f *clusterFiles, tlsMode string, light bool) *rapid.Generator[s
 			sc.Server = genSecret(t, "server", certKeys)
 			sc.Client = genSecret(t, "client", certKeys)
 			sc.ESSSecret = genSecret(t, "esssecret", certKeys)
+			// A complete CA next to server/client secrets that hold only part of the bundle.
+			if rapid.IntRange(0, 2).Draw(t, "partialbundle") > 0 {
+				sc.CA = fullSecret(caKeys)
+				if rapid.IntRange(0, 3).Draw(t, "partialserver") > 0 {
+					sc.Server = genPartialBundle(t, "server")
+				}
+				if rapid.IntRange(0, 3).Draw(t, "partialclient") > 0 {
+					sc.Client = genPartialBundle(t, "client")
+				}
+				if rapid.IntRange(0, 3).Draw(t, "partialess") == 0 {
+					sc.ESSSecret = genPartialBundle(t, "ess")
+				}
+			}
 		}
 		if tlsMode == "full" {
 			sc.CA, sc.Server, sc.Client, sc.ESSSecret = fullSecret(caKeys), fullSecret(certKeys), fullSecret(certKeys), fullSecret(certKeys)
@@ -930,8 +963,18 @@ func (w *world) checkSafety(ctx string, before, after map[verifsim.Key]verifsim.
 				if len(bd["tls.crt"]) > 0 && len(bd["tls.key"]) > 0 && !sameData(bd, ad) {
 					w.fail("VIOLATION %s: the complete certificate authority in secret %s was changed (keys before %v, after %v; tls.crt equal=%v tls.key equal=%v)", ctx, k.Name, keysOf(bd), keysOf(ad), bytes.Equal(bd["tls.crt"], ad["tls.crt"]), bytes.Equal(bd["tls.key"], ad["tls.key"]))
 				}
-			} else if len(bd["tls.crt"]) > 0 && len(bd["tls.key"]) > 0 && !sameData(bd, ad) {
-				w.fail("VIOLATION %s: the existing certificate in secret %s was changed (keys before %v, after %v; tls.crt equal=%v)", ctx, k.Name, keysOf(bd), keysOf(ad), bytes.Equal(bd["tls.crt"], ad["tls.crt"]))
+			} else {
+				// Server, client and ESS secrets: existing TLS material is kept, never
+				// regenerated - also when the secret holds only part of the bundle
+				// (tls.go keeps a secret as it is if any of the three keys is non-empty).
+				for _, dk := range certKeys {
+					if len(bd[dk]) > 0 && !bytes.Equal(bd[dk], ad[dk]) {
+						w.fail("VIOLATION %s: existing %s of TLS secret %s was overwritten (non-empty keys before %v, keys after %v)", ctx, dk, k.Name, nonEmptyKeys(bd), keysOf(ad))
+					}
+				}
+				if len(bd["tls.crt"]) > 0 && len(bd["tls.key"]) > 0 && !sameData(bd, ad) {
+					w.fail("VIOLATION %s: the existing certificate in secret %s was changed (keys before %v, after %v; tls.crt equal=%v)", ctx, k.Name, keysOf(bd), keysOf(ad), bytes.Equal(bd["tls.crt"], ad["tls.crt"]))
+				}
 			}
 			// data a certificate secret already had under other keys stays (an
 			// incomplete CA secret is rewritten as a whole; the property does not speak about it)
@@ -954,6 +997,17 @@ func (w *world) checkSafety(ctx string, before, after map[verifsim.Key]verifsim.
 			w.fail("VIOLATION %s: existing object %s was modified by initialisation:\n before %s\n after  %s", ctx, k, verifsim.ObjDigest(b), verifsim.ObjDigest(a))
 		}
 	}
+}
+
+func nonEmptyKeys(m map[string][]byte) []string {
+	var out []string
+	for k, v := range m {
+		if len(v) > 0 {
+			out = append(out, k)
+		}
+	}
+	sort.Strings(out)
+	return out
 }
 
 func keysOf(m map[string][]byte) []string {
@@ -1012,11 +1066,13 @@ func (w *world) checkTLS(ctx string, before, after map[verifsim.Key]verifsim.Obj
 			w.fail("VIOLATION %s: TLS secret %s does not exist after a complete initialisation", ctx, cs.name)
 		}
 		bd, ad := secretData(b), secretData(a)
-		if b != nil && sameData(bd, ad) && (len(bd["tls.crt"]) > 0 || len(bd["tls.key"]) > 0 || len(bd["ca.crt"]) > 0) {
-			continue // kept as it was
-		}
-		if len(bd["tls.crt"]) > 0 && len(bd["tls.key"]) > 0 {
-			w.fail("VIOLATION %s: existing certificate in %s was regenerated", ctx, cs.name)
+		if b != nil && (len(bd["tls.crt"]) > 0 || len(bd["tls.key"]) > 0 || len(bd["ca.crt"]) > 0) {
+			for _, dk := range certKeys {
+				if len(bd[dk]) > 0 && !bytes.Equal(bd[dk], ad[dk]) {
+					w.fail("VIOLATION %s: existing %s in %s was regenerated", ctx, dk, cs.name)
+				}
+			}
+			continue // existing material: kept as it was (checkSafety), nothing newly issued to verify
 		}
 		// newly issued
 		leaf, err := parseCert(ad["tls.crt"])
@@ -1305,6 +1361,19 @@ func (w *world) label(rec *verifkit.Recorder) {
 			rec.Labelf("%s=partial", e.n)
 		}
 	}
+	caComplete := sc.CA.Present && sc.CA.has("tls.crt") && sc.CA.has("tls.key")
+	for _, e := range []struct {
+		n  string
+		st secretState
+	}{{"server", sc.Server}, {"client", sc.Client}, {"ess", sc.ESSSecret}} {
+		if e.st.Present && len(e.st.Keys) > 0 && len(e.st.Keys) < 3 {
+			if caComplete {
+				rec.Labelf("partial-%s:%s", e.n, bundleName(e.st.Keys))
+			} else {
+				rec.Labelf("partial-%s:%s(ca-incomplete)", e.n, bundleName(e.st.Keys))
+			}
+		}
+	}
 	for _, r := range sc.Requested {
 		reg := "registry"
 		if r.Ref.Registry == "" {
@@ -1525,7 +1594,7 @@ func TestVerifC20Pinned(t *testing.T) {
 		return scenario{
 			Opts: opts{Webhook: true, SvcName: "crossplane-webhooks", SvcNS: namespace, Port: 9443, ConvCRD: true, Light: true},
 			Mode: "partial", CA: fullSecret(caKeys), Server: fullSecret(certKeys), Client: fullSecret(certKeys), ESSSecret: secretState{},
-			CRDs: map[string]string{"providers.pkg.crossplane.io": "current", "configurations.pkg.crossplane.io": "current", "functions.pkg.crossplane.io": "current"},
+			CRDs:     map[string]string{"providers.pkg.crossplane.io": "current", "configurations.pkg.crossplane.io": "current", "functions.pkg.crossplane.io": "current"},
 			Webhooks: "absent", Lock: "absent", Store: "absent", DRC: "absent", Runs: 2,
 		}
 	}
@@ -1547,6 +1616,18 @@ func TestVerifC20Pinned(t *testing.T) {
 		"provider-custom-name-without-registry-host": func(sc *scenario) {
 			sc.Existing = []existingPkg{{Kind: "Provider", Name: "my-custom-name", Custom: true, Ref: pkgRef{"", "crossplane-contrib/provider-aws", ":v1.0.0"}}}
 			sc.Requested = []requestedPkg{{Kind: "Provider", Ref: pkgRef{"", "crossplane-contrib/provider-aws", ":v1.1.0"}, Rel: "same"}}
+		},
+		// C20-a (seeded): with a complete CA, a server/client secret holding only part of
+		// the bundle must be left as it is, not filled with a newly issued pair.
+		"partial-server-crt-only": func(sc *scenario) { sc.Server = secretState{Present: true, Keys: []string{"tls.crt"}} },
+		"partial-server-key-only": func(sc *scenario) { sc.Server = secretState{Present: true, Keys: []string{"tls.key"}} },
+		"partial-server-ca-only":  func(sc *scenario) { sc.Server = secretState{Present: true, Keys: []string{"ca.crt"}} },
+		"partial-client-crt-only": func(sc *scenario) { sc.Client = secretState{Present: true, Keys: []string{"tls.crt"}} },
+		"partial-client-key-only": func(sc *scenario) { sc.Client = secretState{Present: true, Keys: []string{"tls.key"}} },
+		"partial-client-ca-only":  func(sc *scenario) { sc.Client = secretState{Present: true, Keys: []string{"ca.crt"}} },
+		"partial-ess-crt-only": func(sc *scenario) {
+			sc.Opts.ESS = true
+			sc.ESSSecret = secretState{Present: true, Keys: []string{"tls.crt"}, Extra: true}
 		},
 		"fresh-cluster": func(sc *scenario) {
 			*sc = scenario{Opts: sc.Opts, Mode: "empty", Webhooks: "absent", Lock: "absent", Store: "absent", DRC: "absent", Runs: 3, CRDs: map[string]string{},
